@@ -157,6 +157,10 @@ func (this *DefaultInputBitStream) ReadArray(bits []byte, count uint) uint {
 				this.current, this.availBits = this.pull()
 
 				if this.availBits < r {
+					if this.pendingErr != nil {
+						panic(this.pendingErr)
+					}
+
 					panic("No more data to read in the bitstream")
 				}
 
@@ -186,6 +190,10 @@ func (this *DefaultInputBitStream) ReadArray(bits []byte, count uint) uint {
 			this.current, this.availBits = this.pull()
 
 			if this.availBits < r {
+				if this.pendingErr != nil {
+					panic(this.pendingErr)
+				}
+
 				panic("No more data to read in the bitstream")
 			}
 
